@@ -23,6 +23,7 @@ EXTERN_WRITES = {
     "vbi_capture_read": [1, 2, 3, 4, 5], "asprintf": [0], "vasprintf": [0],
     "_vbi_asprintf": [0], "_vbi_vasprintf": [0], "getline": [0, 1], "qsort": [0],
     "regcomp": [0], "mbstowcs": [0], "wcstombs": [0],
+    "readlink": [1], "realpath": [1], "getnameinfo": [2, 4], "sincos": [1, 2], "getcwd": [0],
 }
 EXTERN_PURE = set("""
 strlen strcmp strncmp strcasecmp strncasecmp memcmp strchr strrchr strstr abs labs
@@ -48,6 +49,9 @@ png_create_write_struct png_create_info_struct png_destroy_write_struct png_set_
 png_set_IHDR png_set_PLTE png_set_tRNS png_set_gAMA png_set_text png_write_info
 png_write_image png_write_end png_set_longjmp_fn png_get_io_ptr png_error _setjmp setjmp longjmp
 munmap mmap poll vsyslog strcspn strspn strpbrk memchr
+gnu_dev_major gnu_dev_minor gnu_dev_makedev opendir readdir closedir dirfd getegid getgid fpathconf pathconf
+towlower towupper iswalnum iswalpha iswcntrl iswdigit iswgraph iswlower iswprint iswpunct iswspace iswupper
+iswxdigit log2 sinh cosh tanh ffs clearerr gethostbyaddr gethostbyname access
 """.split())
 
 
@@ -140,9 +144,16 @@ def pointee_tokens(f, arg):
         toks = {("deref", base)}
         if "prec" in e:
             toks.add(("rec", e["prec"]))
-        if base in ("void", "char", "unsigned char", "const void", "const char"):
+        if base in ("void", "const void"):
             toks.add("ALL")
+        elif base in ("char", "unsigned char", "const char", "signed char", "uint8_t"):
+            # bytes written through a character pointer: may hit any byte buffer or anything
+            # reached through a pointer dereference, but - assumption stated in the evidence -
+            # not the non-character fields of named structures (no type punning of that kind here)
+            toks.add(("bytes",))
         return toks, None
+    if e["k"] == "ref" and e.get("dk") == "local" and "[" in t:
+        return set(), i                 # a local (variable length) array: the caller's own storage
     return {"ALL"}, None
 
 
